@@ -13,11 +13,28 @@
 //
 // Modes:  (default) run histories [first, first+histories)   --only N : just history N (+ --dump: narrate)
 //         --shrink with --only N : delta-debug history N in fork()ed children, print the minimal history and its key
+//
+// ADDRESS INDEPENDENCE. The output of a call sequence must not depend on where the allocator placed a section buffer.
+// The same source is built twice: with ASan/UBSan (memory errors; ASan's allocator puts every block of more than
+// ~200 bytes on a 64-byte boundary unless max_redzone is lowered, which c16.py does per shard) and PLAIN (glibc malloc:
+// 16-byte granules, so a section buffer lands on every residue mod 64). Before a history, before every fresh control
+// and between the two fresh "twins" the heap is perturbed deterministically from the case RNG (heap_perturb); a
+// control / twin is steered onto a residue that differs from the run it is compared with when the allocator allows it.
+// The residues (address of .text mod 64) of all compared runs are reported. The probe programs use every legal
+// alignment (1..64) in every align mode at offsets that are not multiples of it, and constant pools whose alignment
+// is 16 / 32 / 64 (embed_const_pool on every emitter kind, Compiler::new_const in both scopes).
 #include <asmjit/x86.h>
 #include <asmjit/a64.h>
 #include "vcommon.h"
 
+#if defined(__SANITIZE_ADDRESS__)
 #include <sanitizer/lsan_interface.h>
+static const bool kAsanBuild = true;
+static inline int leak_check_now() { return __lsan_do_recoverable_leak_check(); }
+#else
+static const bool kAsanBuild = false;
+static inline int leak_check_now() { return 0; }
+#endif
 #include <sys/wait.h>
 #include <unistd.h>
 #include <fcntl.h>
@@ -41,6 +58,54 @@ static bool g_dump = false;
 static bool g_neutralize = false;   // debugging aid: work around the two known defects so that the check can look past them
 static int g_viol_fd = -1;   // shrink children report violations the moment they are seen (the process may die right after)
 #define DBG(...) do { if (g_dump) { fprintf(stderr, __VA_ARGS__); fputc('\n', stderr); } } while (0)
+
+// ---- what the workload did with alignments (measured, reported as evidence) ---------------------------------
+static const char* kAlignModeNames[3] = { "code", "data", "zero" };
+static uint64_t g_align_unaligned[2][3][7];   // [family][mode][log2 alignment]: align() calls at an offset that is NOT a multiple of the alignment
+static uint64_t g_align_total[2][3][7];
+static uint64_t g_align_model_mismatch = 0;   // assembler offset after align() != offset predicted from the calls (statistics only)
+static uint64_t g_pool_embeds[2][3][7];       // [family][kind][log2 pool alignment]: embed_const_pool() calls
+static uint64_t g_pool_unaligned[2][3][7];    //   ... at an offset that is not a multiple of the pool alignment
+static uint64_t g_new_const[2][2][7];         // [family][scope][log2 size]: Compiler::new_const() calls
+static bool g_count_probe_calls = false;
+
+// ---- heap perturbation: moves every later allocation (section buffers!) without touching the script ------------------
+static std::vector<void*> g_kept;
+static uint64_t g_perturb_calls = 0, g_perturb_blocks = 0, g_perturb_kept = 0;
+// `plug` > 0: additionally a block of that size is allocated and kept - it occupies the hole a just-freed section buffer left, so
+// that the next buffer of that size cannot simply move back in (used when a control is steered onto another residue).
+static void heap_perturb(Rng& r, size_t plug = 0) {
+  g_perturb_calls++;
+  if (plug) {
+    void* p = malloc(plug); if (p) { memset(p, 0x5C, 64); g_kept.push_back(p); g_perturb_blocks++; g_perturb_kept++; }
+    void* q = malloc(16 + 32 * size_t(r.below(8))); if (q) { g_kept.push_back(q); g_perturb_blocks++; g_perturb_kept++; }
+  }
+  uint32_t n = uint32_t(r.below(20));
+  void* tmp[20]; uint32_t nt = 0;
+  for (uint32_t i = 0; i < n; i++) {
+    size_t sz;
+    switch (r.below(9)) {
+      case 0: case 1: sz = 16 + 32 * size_t(r.below(8)); break;  // 16, 48, 80 ... : moves a 16-byte granule allocator to every residue mod 64
+      case 2: case 3: sz = 8 + size_t(r.below(121)); break;
+      case 4: sz = 8096 + 16 * size_t(r.below(5)); break;          // the size of a young section buffer (and a little more)
+      default: sz = 8 + size_t(r.below(4089)); break;            // 8 .. 4096
+    }
+    void* p = malloc(sz);
+    if (!p) continue;
+    memset(p, int(r.below(256)), sz < 64 ? sz : 64);
+    g_perturb_blocks++;
+    if (r.chance(1, 2)) { g_kept.push_back(p); g_perturb_kept++; } else tmp[nt++] = p;
+  }
+  for (uint32_t i = 0; i < nt; i++) free(tmp[i]);
+  uint32_t drop = r.chance(1, 4) ? uint32_t(r.below(6)) : 0;
+  if (g_kept.size() > 3000) drop += 1500;
+  for (uint32_t i = 0; i < drop && !g_kept.empty(); i++) { size_t j = size_t(r.below(g_kept.size())); free(g_kept[j]); g_kept[j] = g_kept.back(); g_kept.pop_back(); }
+}
+static inline int text_residue(CodeHolder& code) {
+  if (!code.is_initialized()) return -1;
+  const uint8_t* p = code.text_section()->data();
+  return p ? int(uintptr_t(p) & 63) : -1;
+}
 
 // =========================================================================================================
 // Trace of error codes (one entry per API call of a program) and observation of a holder
@@ -201,6 +266,7 @@ static uint64_t hash_fields(const Fields& f) {
 struct Ctx {
   CodeHolder& code; BaseEmitter* e; int kind; int arch; uint64_t seed; std::string pfx;
   Trace tr;
+  bool counted = false;   // a probe (not junk generation): its align / pool calls go into the evidence counters
   Ctx(CodeHolder& c, BaseEmitter* em, int k, int a, uint64_t s, const std::string& p) : code(c), e(em), kind(k), arch(a), seed(s), pfx(p) {}
 };
 #define T(x) c.tr.rec((x))
@@ -220,7 +286,36 @@ enum : unsigned {
   F_SECTIONS = 32, F_RELOCS = 64,
   F_ABSCALL = 256,  // calls absolute addresses: position dependent once the holder knows its base address
   F_ABS32 = 128,    // 32-bit x86: references labels by absolute address (relocation payload depends on the position)
+  F_WIDEALIGN = 512, // pads to 32 / 64 bytes at offsets that are not multiples of it (output would show a dependence on the buffer address mod 64)
 };
+
+// ---- alignment helpers shared by both families -------------------------------------------------------------------
+static inline uint64_t align_up_u64(uint64_t v, uint32_t a) { return (v + a - 1) & ~uint64_t(a - 1); }
+static inline uint32_t lg2u(uint32_t a) { uint32_t n = 0; while ((1u << n) < a && n < 6) n++; return n; }
+static inline uint64_t asm_offset(Ctx& c) { return c.kind == 0 /* K_ASM */ ? uint64_t(static_cast<BaseAssembler*>(c.e)->offset()) : 0; }
+
+// One align() call. `moff` = offset predicted from the calls made so far, relative to the (64-byte aligned) start of the program.
+static void do_align(Ctx& c, uint64_t& moff, uint64_t base, AlignMode mode, uint32_t a) {
+  int fam = fam_of(c.arch); uint32_t l = lg2u(a);
+  if (c.counted) { g_align_total[fam][int(mode)][l]++; if (moff & (a - 1)) g_align_unaligned[fam][int(mode)][l]++; }
+  c.tr.rec(c.e->align(mode, a));
+  moff = align_up_u64(moff, a);
+  if (c.counted && c.kind == 0 && asm_offset(c) - base != moff) g_align_model_mismatch++;
+}
+
+// One embed_const_pool(): `nwide` constants of `wide` bytes (16 / 32 / 64; 0 = none) and `nsmall` 4 / 8 byte constants.
+static void do_pool(Ctx& c, uint64_t& moff, const Label& l, uint32_t wide, uint32_t nwide, uint32_t nsmall) {
+  Arena ar(4096); ConstPool cp(ar);
+  uint8_t d[64];
+  for (uint32_t i = 0; wide && i < nwide; i++) { for (uint32_t j = 0; j < 64; j++) d[j] = uint8_t(j * 3 + i * 17 + c.seed + wide); size_t off; c.tr.rec(cp.add(d, wide, Out(off))); }
+  for (uint32_t i = 0; i < nsmall; i++) { uint64_t v = 0x0102030405060708ull * (i + 1) + c.seed; size_t off; c.tr.rec(cp.add(&v, (i & 1) ? 4 : 8, Out(off))); }
+  uint32_t pa = uint32_t(cp.alignment()); if (!pa) pa = 1;
+  if (c.counted) { g_pool_embeds[fam_of(c.arch)][c.kind][lg2u(pa)]++; if (moff & (pa - 1)) g_pool_unaligned[fam_of(c.arch)][c.kind][lg2u(pa)]++; }
+  c.tr.rec(c.e->embed_const_pool(l, cp));
+  moff = align_up_u64(moff, pa) + cp.size();
+}
+static inline void note_new_const(Ctx& c, ConstPoolScope scope, size_t size) { if (c.counted) g_new_const[fam_of(c.arch)][scope == ConstPoolScope::kGlobal ? 1 : 0][lg2u(uint32_t(size))]++; }
+
 
 // ---- x86 / x86-64, any emitter kind ---------------------------------------------------------------------
 #define XE auto& e = *c.e->as<x86::Emitter>(); bool w = c.arch == A_X64; (void)w; \
@@ -404,6 +499,57 @@ static void xp_embed(Ctx& c) {
   T(e.align(AlignMode::kZero, 16));
   T(e.align(AlignMode::kCode, 16));
   T(e.ret());
+}
+
+// 1, 3 ... 63 bytes of known size (data and one-byte instructions)
+static void x_odd_bytes(Ctx& c, Rng& r, uint64_t& moff) {
+  XE; uint32_t n = 1 + 2 * uint32_t(r.below(32));
+  uint32_t nops = r.chance(1, 2) ? 0 : (n > 9 ? 1 + 2 * uint32_t(r.below(4)) : n);
+  if (n > nops) T(e.embed(kBlob, n - nops));
+  for (uint32_t i = 0; i < nops; i++) T(e.nop());
+  moff += n;
+}
+
+// Every legal alignment (1 .. Globals::kMaxAlignment) in every align mode, each at an offset that is not a multiple of it.
+static void xp_aligns(Ctx& c) {
+  XE; Rng r(c.seed * 83 + 16);
+  uint64_t moff = 0, base = asm_offset(c);
+  uint8_t order[21]; for (uint8_t i = 0; i < 21; i++) order[i] = i;
+  for (uint32_t i = 20; i > 0; i--) std::swap(order[i], order[r.below(i + 1)]);
+  std::vector<Label> ls;
+  Label first = NL(c); T(e.bind(first));
+  for (uint32_t i = 0; i < 21; i++) {
+    AlignMode mode = AlignMode(order[i] / 7); uint32_t a = 1u << (order[i] % 7);
+    x_odd_bytes(c, r, moff);
+    if (a > 1 && !(moff & (a - 1))) { T(e.nop()); moff++; }
+    do_align(c, moff, base, mode, a);
+    Label l = NL(c); T(e.bind(l)); ls.push_back(l);
+    T(e.mov(x86::eax, imm(int32_t(0x1000 + order[i])))); moff += 5;
+  }
+  T(e.jmp(first)); T(e.jz(ls[3])); T(e.short_().jmp(ls[20]));
+  if (w) T(e.lea(x86::rax, x86::ptr(ls[10])));
+  T(e.call(ls[17]));
+  T(e.ret());
+}
+
+// Constant pools whose alignment is 16 / 32 / 64, embedded at offsets that are not multiples of it.
+static void xp_cpools(Ctx& c) {
+  XE; Rng r(c.seed * 89 + 18);
+  uint64_t moff = 0, base = asm_offset(c);
+  Label a = NL(c), p1 = NL(c), p2 = NL(c), p3 = NL(c);
+  T(e.bind(a)); T(e.mov(x86::eax, imm(int32_t(c.seed + 1)))); T(e.ret()); moff += 6;
+  x_odd_bytes(c, r, moff);
+  do_pool(c, moff, p1, 16u << (c.seed % 3), 1 + uint32_t(r.below(2)), uint32_t(r.below(4)));
+  x_odd_bytes(c, r, moff);
+  do_pool(c, moff, p2, 16u << ((c.seed / 3 + 1) % 3), 1, 1 + uint32_t(r.below(3)));
+  x_odd_bytes(c, r, moff);
+  do_pool(c, moff, p3, 0, 0, 1 + uint32_t(r.below(3)));
+  x_odd_bytes(c, r, moff);
+  do_align(c, moff, base, AlignMode::kCode, 16);
+  if (w) { T(e.lea(x86::rax, x86::ptr(p1))); T(e.movdqu(x86::xmm0, x86::ptr(p2))); }
+  T(e.jmp(a));
+  T(e.ret());
+  (void)p3;
 }
 
 static void xp_named(Ctx& c) {
@@ -599,10 +745,11 @@ static void xf_cpool(x86::Compiler& cc, Ctx& c, Rng& r, bool global) {
   x86::Gp a = cc.new_gp32("a");
   fn->set_arg(0, a);
   x86::Vec x0 = cc.new_xmm("c0"), x1 = cc.new_xmm("c1");
-  uint8_t data[32]; for (size_t i = 0; i < 32; i++) data[i] = uint8_t(i * 5 + (c.seed & 3));
+  uint8_t data[64]; for (size_t i = 0; i < 64; i++) data[i] = uint8_t(i * 5 + (c.seed & 3));
   ConstPoolScope big = global ? ConstPoolScope::kGlobal : ConstPoolScope::kLocal;
-  x86::Mem c32 = cc.new_const(big, data, 32);
-  x86::Mem c16 = cc.new_const(ConstPoolScope::kLocal, data + 16, 16);
+  size_t wsz = size_t(16) << (c.seed % 3);                       // the pool (emitted behind the function / behind all code) is aligned to 16 / 32 / 64
+  x86::Mem c32 = cc.new_const(big, data, wsz); note_new_const(c, big, wsz);
+  x86::Mem c16 = cc.new_const(ConstPoolScope::kLocal, data + 16, 16); note_new_const(c, ConstPoolScope::kLocal, 16);
   x86::Mem c4 = cc.new_int32_const(ConstPoolScope::kLocal, 200 + int(r.below(4)));
   x86::Mem c8 = cc.new_qword_const(big, 0x1122334455667788ull);
   x86::Mem cd = cc.new_double_const(ConstPoolScope::kLocal, 3.25);
@@ -775,6 +922,56 @@ static void ap_embed(Ctx& c) {
   T(e.ret(a64::x30));
 }
 
+// 4 .. 60 bytes of instructions, then (offgrid) 1 .. 3 bytes of data
+static void a_pad(Ctx& c, Rng& r, uint64_t& moff, bool offgrid) {
+  AE; uint32_t n4 = (offgrid ? 0u : 1u) + uint32_t(r.below(15));
+  for (uint32_t i = 0; i < n4; i++) { if (i & 1) T(e.nop()); else T(e.add(a64::x1, a64::x1, a64::x2)); moff += 4; }
+  if (offgrid) { uint32_t b = 1 + uint32_t(r.below(3)); T(e.embed(kBlob, b)); moff += b; }
+}
+
+static void ap_aligns(Ctx& c) {
+  AE; Rng r(c.seed * 83 + 39);
+  uint64_t moff = 0, base = asm_offset(c);
+  uint8_t order[21]; for (uint8_t i = 0; i < 21; i++) order[i] = i;
+  for (uint32_t i = 20; i > 0; i--) std::swap(order[i], order[r.below(i + 1)]);
+  std::vector<Label> ls;
+  Label first = NL(c); T(e.bind(first));
+  for (uint32_t i = 0; i < 21; i++) {
+    AlignMode mode = AlignMode(order[i] / 7); uint32_t a = 1u << (order[i] % 7);
+    // kCode pads with instructions: legal on the 4-byte grid only; data modes are also used behind 1 .. 3 stray bytes
+    a_pad(c, r, moff, mode != AlignMode::kCode && r.chance(3, 4));
+    if (a > 4 && !(moff & (a - 1))) { T(e.nop()); moff += 4; }
+    do_align(c, moff, base, mode, a);
+    if (moff & 3) do_align(c, moff, base, r.chance(1, 2) ? AlignMode::kZero : AlignMode::kData, 4);   // back onto the grid
+    Label l = NL(c); T(e.bind(l)); ls.push_back(l);
+    T(e.mov(a64::w0, uint64_t(0x100 + order[i]))); moff += 4;
+  }
+  T(e.b(first)); T(e.cbz(a64::x1, ls[3])); T(e.adr(a64::x3, ls[10])); T(e.bl(ls[17]));
+  T(e.ret(a64::x30));
+}
+
+static void ap_cpools(Ctx& c) {
+  AE; Rng r(c.seed * 89 + 41);
+  uint64_t moff = 0, base = asm_offset(c);
+  Label a = NL(c), p1 = NL(c), p2 = NL(c), p3 = NL(c);
+  T(e.bind(a)); T(e.mov(a64::w0, uint64_t(c.seed + 1))); T(e.ret(a64::x30)); moff += 8;
+  a_pad(c, r, moff, r.chance(3, 4));
+  do_pool(c, moff, p1, 16u << (c.seed % 3), 1 + uint32_t(r.below(2)), uint32_t(r.below(4)));
+  if (moff & 3) do_align(c, moff, base, AlignMode::kZero, 4);
+  a_pad(c, r, moff, r.chance(3, 4));
+  do_pool(c, moff, p2, 16u << ((c.seed / 3 + 1) % 3), 1, 1 + uint32_t(r.below(3)));
+  if (moff & 3) do_align(c, moff, base, AlignMode::kData, 4);
+  a_pad(c, r, moff, r.chance(3, 4));
+  do_pool(c, moff, p3, 0, 0, 1 + uint32_t(r.below(3)));
+  if (moff & 3) do_align(c, moff, base, AlignMode::kZero, 4);
+  a_pad(c, r, moff, false);
+  do_align(c, moff, base, AlignMode::kCode, 16);
+  T(e.ldr(a64::x2, a64::ptr(p1))); T(e.adr(a64::x3, p2));
+  T(e.b(a));
+  T(e.ret(a64::x30));
+  (void)p3;
+}
+
 static void ap_named(Ctx& c) {
   AE;
   Label g = NNL(c, c.pfx + "main");
@@ -925,10 +1122,17 @@ static void af_jumptab(a64::Compiler& cc, Ctx& c, Rng& r, int cpool /*0 none, 1 
   T(cc.bind(end));
   if (cpool) {
     uint8_t data[16]; for (size_t i = 0; i < 16; i++) data[i] = uint8_t(i * 9 + 1 + (c.seed & 3));
-    a64::Mem c16 = cc.new_const(ConstPoolScope::kLocal, data, 16);
-    a64::Mem c8 = cc.new_const(cpool == 2 ? ConstPoolScope::kGlobal : ConstPoolScope::kLocal, data + 8, 8);
+    ConstPoolScope big = cpool == 2 ? ConstPoolScope::kGlobal : ConstPoolScope::kLocal;
+    a64::Mem c16 = cc.new_const(ConstPoolScope::kLocal, data, 16); note_new_const(c, ConstPoolScope::kLocal, 16);
+    a64::Mem c8 = cc.new_const(big, data + 8, 8); note_new_const(c, big, 8);
     a64::Vec q = cc.new_vec_q("cq"); a64::Gp g64 = cc.new_gp64("c8");
     T(cc.ldr(q, c16)); T(cc.ldr(g64, c8)); T(cc.add(val, val, g64.w())); T(cc.mov(op, q.s(1))); T(cc.add(val, val, op));
+    // a constant of 16 / 32 / 64 bytes: the pool is aligned to its size
+    uint8_t wd[64]; for (size_t i = 0; i < 64; i++) wd[i] = uint8_t(i * 7 + 3 + (c.seed & 3));
+    size_t wsz = size_t(16) << (c.seed % 3);
+    a64::Mem cw = cc.new_const(big, wd, wsz); note_new_const(c, big, wsz);
+    a64::Vec q2 = cc.new_vec_q("cw");
+    T(cc.ldr(q2, cw)); T(cc.mov(op, q2.s(2))); T(cc.add(val, val, op));
   }
   T(cc.ret(val));
   T(cc.end_func());
@@ -989,6 +1193,8 @@ static const Prog kProgs[] = {
   { "err_bind2", { xp_err_bind2, nullptr },    KM_ALL,  F_ERR },
   { "unbound",   { xp_unbound, ap_unbound },   KM_ALL,  F_LEFTOVER },
   { "sections",  { xp_sections, ap_sections }, KM_ALL,  F_CLEAN | F_SECTIONS | F_RELOCS },
+  { "aligns",    { xp_aligns, ap_aligns },     KM_ALL,  F_CLEAN | F_TEXTONLY | F_WIDEALIGN },
+  { "cpools",    { xp_cpools, ap_cpools },     KM_ALL,  F_CLEAN | F_TEXTONLY | F_WIDEALIGN },
   { "farcall",   { xp_farcall, nullptr },      KM_ALL,  F_CLEAN | F_TEXTONLY | F_RELOCS | F_ABSCALL },
   { "reloc",     { xp_reloc, nullptr },        KM_ALL,  F_CLEAN | F_RELOCS },
   { "embed",     { xp_embed, ap_embed },       KM_ALL,  F_CLEAN | F_TEXTONLY },
@@ -1000,9 +1206,9 @@ static const Prog kProgs[] = {
   { "c_vec",     { xc_vec, ac_vec },           KM_CMP,  F_CLEAN | F_TEXTONLY },
   { "c_invoke",  { xc_invoke, ac_invoke },     KM_CMP,  F_CLEAN | F_TEXTONLY | F_RELOCS | F_ABSCALL },
   { "c_jumptab", { xc_jumptab, ac_jumptab },   KM_CMP,  F_CLEAN | F_TEXTONLY | F_ABS32 },
-  { "c_cpool",   { xc_cpool, ac_cpool },       KM_CMP,  F_CLEAN | F_TEXTONLY | F_ABS32 },
-  { "c_gcpool",  { xc_gcpool, ac_gcpool },     KM_CMP,  F_CLEAN | F_GLOBALCP },
-  { "c_multi",   { xc_multi, ac_multi },       KM_CMP,  F_CLEAN | F_TEXTONLY | F_RELOCS | F_ABS32 | F_ABSCALL },
+  { "c_cpool",   { xc_cpool, ac_cpool },       KM_CMP,  F_CLEAN | F_TEXTONLY | F_ABS32 | F_WIDEALIGN },
+  { "c_gcpool",  { xc_gcpool, ac_gcpool },     KM_CMP,  F_CLEAN | F_GLOBALCP | F_WIDEALIGN },
+  { "c_multi",   { xc_multi, ac_multi },       KM_CMP,  F_CLEAN | F_TEXTONLY | F_RELOCS | F_ABS32 | F_ABSCALL | F_WIDEALIGN },
   { "c_shared",  { xc_shared, ac_shared },     KM_CMP,  F_CLEAN | F_TEXTONLY },
   { "c_open",    { xc_open, ac_open },         KM_CMP,  F_ERR | F_LEFTOVER },
 };
@@ -1040,6 +1246,7 @@ static BaseEmitter* mk_emitter(int fam, int kind) {
 // (attached by the caller). Returns the number of failed calls.
 static uint32_t run_probe(CodeHolder& code, BaseEmitter* em, BaseEmitter* ser, const ProbeSpec& sp, Fields& F) {
   Ctx c(code, em, sp.kind, sp.arch, sp.seed, sp.pfx);
+  c.counted = g_count_probe_calls;
   Label marker;
   if (sp.append) {
     T(em->section(code.text_section()));   // (an assembler that was the target of serialize_to() stands in the LAST serialized section)
@@ -1058,19 +1265,26 @@ static uint32_t run_probe(CodeHolder& code, BaseEmitter* em, BaseEmitter* ser, c
   return c.tr.nerr;
 }
 
-struct FreshResult { Fields f; uint32_t nerr; uint64_t hash; };
+struct FreshResult { Fields f; uint32_t nerr; uint64_t hash; int res64 = -1; };
 static std::map<std::string, FreshResult> g_fresh_cache;
-static uint64_t g_fresh_runs = 0, g_fresh_hits = 0;
+static uint64_t g_fresh_runs = 0, g_fresh_hits = 0, g_steer_retries = 0;
+static size_t g_last_text_capacity = 0;
+static bool g_steer = !kAsanBuild;   // a 64-byte granule allocator cannot be steered: do not pay for the attempts
 
-// Q on completely fresh objects in the canonical configuration.
-static const FreshResult& fresh_control(const ProbeSpec& sp) {
+// Q on completely fresh objects in the canonical configuration. The heap is perturbed first (seeded by `pseed` and the probe);
+// with `avoid` >= 0 the generation is repeated (at most 3 more times, more perturbation in between) until the .text buffer
+// of the control lies on another residue mod 64 than the run it will be compared with.
+static const FreshResult& fresh_control(const ProbeSpec& sp, uint64_t pseed = 0, int avoid = -1) {
   std::string key = sp.str();
   auto it = g_fresh_cache.find(key);
   if (it != g_fresh_cache.end()) { g_fresh_hits++; return it->second; }
   g_fresh_runs++;
   if (g_fresh_cache.size() > 6000) g_fresh_cache.clear();
   FreshResult fr;
-  {
+  Rng pr(fnv1a(key.data(), key.size(), pseed ^ 0xF5E5Dull));
+  for (int attempt = 0; attempt < 4; attempt++) {
+    if (attempt) { g_steer_retries++; fr = FreshResult(); }
+    heap_perturb(pr, attempt ? g_last_text_capacity : 0);
     CodeHolder code;
     Error ie = code.init(Environment(arch_of(sp.arch)), sp.base ? base_of(sp.arch) : Globals::kNoBaseAddress);
     std::unique_ptr<BaseEmitter> em(mk_emitter(fam_of(sp.arch), sp.kind));
@@ -1079,7 +1293,12 @@ static const FreshResult& fresh_control(const ProbeSpec& sp) {
     em->add_diagnostic_options(DiagnosticOptions(sp.val));
     if (sp.kind != K_ASM && sp.fin == 1) { ser.reset(mk_emitter(fam_of(sp.arch), K_ASM)); (void)code.attach(ser.get()); ser->add_diagnostic_options(DiagnosticOptions(sp.val)); }
     fadd(fr.f, "setup", fmtv("%u,%u", unsigned(ie), unsigned(ae)));
+    bool cnt = g_count_probe_calls; if (attempt) g_count_probe_calls = false;
     fr.nerr = run_probe(code, em.get(), ser.get(), sp, fr.f);
+    g_count_probe_calls = cnt;
+    fr.res64 = text_residue(code);
+    g_last_text_capacity = code.text_section()->buffer().capacity();
+    if (!g_steer || avoid < 0 || fr.res64 < 0 || fr.res64 != avoid) break;
   }
   fr.hash = hash_fields(fr.f);
   return g_fresh_cache.emplace(key, std::move(fr)).first->second;
@@ -1103,7 +1322,7 @@ struct Res {
 };
 struct Grave { Res r; int age; };
 
-struct HistCfg { uint32_t static_size = 0; bool noise = false; };
+struct HistCfg { uint32_t static_size = 0; bool noise = false; uint64_t pseed = 0; /* heap perturbation of this history */ };
 
 static const uint32_t kStaticSizes[] = { 24, 40, 64, 136, 520, 1000, 1003, 4104, 16384 + 24, 70000 };
 
@@ -1136,6 +1355,12 @@ struct Rig {
     for (size_t i = 0; i < grave.size();) { if (++grave[i].age > 5) { free_res(grave[i].r); grave[i] = grave.back(); grave.pop_back(); } else i++; }
   }
   BaseEmitter* get(int fam, int k) { if (!em[fam][k]) em[fam][k] = mk_emitter(fam, k); return em[fam][k]; }
+  // The holder is destroyed (with emitters still attached) and ANOTHER holder takes its place; the emitters live on.
+  void new_holder() {
+    code->~CodeHolder();
+    if (hc.static_size) { memset(sbuf, 0xA7, hc.static_size); new (code) CodeHolder(Span<uint8_t>(sbuf, hc.static_size)); }
+    else new (code) CodeHolder();
+  }
   bool attached(int fam, int k) const { return em[fam][k] && em[fam][k]->code() == code; }
 };
 
@@ -1153,8 +1378,8 @@ static void heap_noise(Rig& R, Rng& r) {
   for (uint32_t i = 0; i < n; i++) {
     if (!R.noise.empty() && r.chance(2, 5)) { size_t j = r.below(R.noise.size()); free(R.noise[j]); R.noise[j] = R.noise.back(); R.noise.pop_back(); }
     else {
-      static const size_t sz[] = { 16, 24, 48, 100, 256, 1000, 4096, 16384, 16400, 65536, 70000, 200000 };
-      size_t s = sz[r.below(12)] + r.below(16);
+      static const size_t sz[] = { 16, 24, 48, 100, 256, 1000, 4096, 16384, 16400, 65536, 70000, 200000, 80, 112, 8080, 8096 };
+      size_t s = sz[r.below(16)] + (r.chance(1, 2) ? r.below(16) : 0);
       void* p = malloc(s); if (p) { memset(p, int(r.below(256)), s); R.noise.push_back(p); }
     }
   }
@@ -1165,9 +1390,9 @@ static void heap_noise(Rig& R, Rng& r) {
 // =========================================================================================================
 
 enum Op : uint8_t { OP_INIT, OP_SETCFG, OP_ATTACH, OP_DETACH, OP_GEN, OP_FINALIZE, OP_POST, OP_ONESHOT, OP_RESET_SOFT, OP_RESET_HARD, OP_REINIT,
-                    OP_RECREATE, OP_NOISE, OP_PROBE, OP_APROBE, OP_COUNT };
+                    OP_RECREATE, OP_NOISE, OP_PROBE, OP_APROBE, OP_NEWHOLDER, OP_COUNT };
 static const char* kOpNames[OP_COUNT] = { "init", "setcfg", "attach", "detach", "gen", "finalize", "post", "oneshot", "reset_soft", "reset_hard", "reinit",
-                                          "recreate", "noise", "probe", "aprobe" };
+                                          "recreate", "noise", "probe", "aprobe", "newholder" };
 struct Step { Op op; uint8_t kind = 0; uint8_t arch = 0; uint16_t prog = 0; uint32_t seed = 0; uint32_t a = 0, b = 0; };
 
 // SETCFG packing
@@ -1259,9 +1484,9 @@ static void gen_history(Rng& r, HistCfg& hc, std::vector<Step>& S) {
     // ---- how this epoch gets a clean holder
     if (ep == 0) { Step in = mk(OP_INIT); in.arch = uint8_t(arch); in.a = uint32_t(r.below(2)); S.push_back(in); }
     else {
-      switch (r.below(6)) {
-        case 0: case 1: {
-          S.push_back(mk(r.chance(1, 2) ? OP_RESET_SOFT : OP_RESET_HARD));
+      switch (r.below(7)) {
+        case 0: case 1: case 6: {
+          S.push_back(mk(r.chance(1, 3) ? OP_NEWHOLDER : r.chance(1, 2) ? OP_RESET_SOFT : OP_RESET_HARD));
           if (r.chance(1, 3)) arch = int(r.below(3));
           Step in = mk(OP_INIT); in.arch = uint8_t(arch); in.a = uint32_t(r.below(2)); S.push_back(in);
           break;
@@ -1378,6 +1603,7 @@ static int cls_of_field(const std::string& f) {
   if (f == "trace") return CL_TRACE; if (f == "setup") return CL_API; if (f == "sections") return CL_SECTIONS; if (f == "text-bytes") return CL_TEXT;
   if (f == "data-bytes") return CL_DATA; if (f == "labels") return CL_LABELS; if (f == "relocs") return CL_RELOCS; if (f == "fixups") return CL_FIXUPS;
   if (f == "post-trace" || f == "post-layout") return CL_POST; if (f == "post-image") return CL_IMAGE;
+  if (f == "marker") return CL_LABELS;   // the label bound behind align(kCode, 64) in front of an appended probe
   return CL_SHAPE;
 }
 
@@ -1392,6 +1618,9 @@ struct Stats {
   uint64_t static_hist = 0, noise_hist = 0, static_sizes[10] {};
   uint64_t cfg_log[3] {}, cfg_loglvl[2] {}, cfg_eh[3] {}, cfg_diag[4] {}, probes_with_logger = 0, probes_with_eh = 0, probes_with_diag = 0, probes_static = 0, probes_after_noise = 0;
   uint64_t nondet_checks = 0, state_checks = 0, log_calls = 0, eh_calls = 0, expected_api_errors = 0;
+  // address of the .text buffer mod 64: of the recycled run, of its fresh control, of the second twin; pairs by equal / different residue
+  uint64_t res_recycled[64] {}, res_fresh[64] {}, res_twin[64] {};
+  uint64_t pairs_diff = 0, pairs_same = 0, pairs_wide = 0, pairs_wide_diff = 0, twin_diff = 0, twin_same = 0, twin_wide = 0, twin_wide_diff = 0;
   std::map<std::string, uint64_t> progs_probed;
 };
 static Stats ST;
@@ -1405,6 +1634,8 @@ struct Outcome {
 };
 
 static void run_history(const HistCfg& hc, const std::vector<Step>& S, Outcome& O, bool count) {
+  g_count_probe_calls = count;
+  { Rng pr(hc.pseed ^ 0x48454150ull); heap_perturb(pr); }   // the recycled holder and everything it allocates start somewhere else
   Rig R(hc);
   CodeHolder& code = *R.code;
   int arch = -1;                       // architecture of the initialised holder
@@ -1527,6 +1758,15 @@ static void run_history(const HistCfg& hc, const std::vector<Step>& S, Outcome& 
         detach_all_flags(); arch = -1; clean_full = false; append_ok = false; on_holder_clean();
         break;
       }
+      case OP_NEWHOLDER: {
+        if (code.is_initialized()) note_clean("newholder", -1, -1);
+        R.new_holder();
+        if (code.is_initialized()) fail(CL_API, int(si), "a new holder is initialised", "api:newholder");
+        for (int f = 0; f < 2; f++) for (int kk = 0; kk < 3; kk++) if (R.em[f][kk] && R.em[f][kk]->code()) fail(CL_API, int(si), "emitter still attached after its holder was destroyed", "api:newholder-detach");
+        R.retire(R.holder_res);       // the holder's logger / handler went away with it
+        detach_all_flags(); arch = -1; clean_full = false; append_ok = false; on_holder_clean();
+        break;
+      }
       case OP_REINIT: {
         if (!code.is_initialized()) { expect(code.reinit(), Error::kNotInitialized, int(si), "reinit-uninitialised"); break; }
         note_clean("reinit", -1, -1);
@@ -1626,11 +1866,19 @@ static void run_history(const HistCfg& hc, const std::vector<Step>& S, Outcome& 
         }
         Fields F; fadd(F, "setup", "0,0");
         uint32_t nerr = run_probe(code, em, ser, sp, F);
-        const FreshResult& fr = fresh_control(sp);
+        int rres = text_residue(code);
+        const FreshResult& fr = fresh_control(sp, hc.pseed, rres);
+        int fres = fr.res64;
         std::string what, fld = diff_fields(F, fr.f, &what);
         O.probes++;
         if (leftover_clean_seen) O.nontrivial = true;
         if (count) {
+          if (rres >= 0) ST.res_recycled[rres]++;
+          if (fres >= 0) ST.res_fresh[fres]++;
+          if (rres >= 0 && fres >= 0) {
+            bool d = rres != fres; if (d) ST.pairs_diff++; else ST.pairs_same++;
+            if (P.flags & F_WIDEALIGN) { ST.pairs_wide++; if (d) ST.pairs_wide_diff++; }
+          }
           ST.probes[app_probe ? 1 : 0][k][arch]++; ST.progs_probed[P.name]++; if (fr.nerr) ST.probe_err_programs++;
           if (R.holder_res.lg || R.em_res[fam][k].lg) ST.probes_with_logger++;
           if (R.holder_res.eh || R.em_res[fam][k].eh) ST.probes_with_eh++;
@@ -1640,17 +1888,25 @@ static void run_history(const HistCfg& hc, const std::vector<Step>& S, Outcome& 
         }
         if (!app_probe && O.canon.size() < 6) O.canon.emplace_back(sp.str(), fr.hash);
         if (!fld.empty()) {
-          fail(cls_of_field(fld), int(si), fmtv("probe %s after %s: ", sp.str().c_str(), last_clean.c_str()) + what,
+          fail(cls_of_field(fld), int(si), fmtv("probe %s after %s (.text buffer at %d mod 64, fresh control at %d mod 64): ", sp.str().c_str(), last_clean.c_str(), rres, fres) + what,
                fmtv("%s:%s:%s:%s:%s", app_probe ? "append" : "residue", kClsNames[cls_of_field(fld)], kKindNames[k], last_clean.c_str(), P.name));
           break;
         }
         // fresh objects must give the same answer whatever the heap looks like right now
-        if ((O.probes & 7) == 1) {
+        // (the heap is perturbed between the twins; the second one is steered onto another residue mod 64 when the allocator allows it)
+        if ((O.probes & 7) == 1 || (g_steer && (P.flags & F_WIDEALIGN))) {
           if (count) ST.nondet_checks++;
           std::string key = sp.str(); FreshResult old = g_fresh_cache[key]; g_fresh_cache.erase(key);
-          const FreshResult& again = fresh_control(sp);
+          const FreshResult& again = fresh_control(sp, hc.pseed ^ 0x7717ull, old.res64);
+          if (count && again.res64 >= 0 && old.res64 >= 0) {
+            bool d = again.res64 != old.res64; ST.res_twin[again.res64]++; if (d) ST.twin_diff++; else ST.twin_same++;
+            if (P.flags & F_WIDEALIGN) { ST.twin_wide++; if (d) ST.twin_wide_diff++; }
+          }
           std::string w2, f2 = diff_fields(again.f, old.f, &w2);
-          if (!f2.empty()) { fail(CL_NONDET, int(si), "two fresh generations of " + key + " differ: " + w2, std::string("nondet:") + kKindNames[k] + ":" + P.name); break; }
+          if (!f2.empty()) {
+            fail(CL_NONDET, int(si), fmtv("two fresh generations of %s differ (.text buffers at %d and %d mod 64): ", key.c_str(), again.res64, old.res64) + w2, std::string("nondet:") + kKindNames[k] + ":" + P.name);
+            break;
+          }
         }
         if (sp.kind != K_ASM) { spent[fam][k] = true; if (sp.fin == 0) asm_stale = true; }
         if (sp.post) { posted = true; asm_stale = true; append_ok = false; }
@@ -1679,6 +1935,7 @@ static void make_history(uint64_t seed, uint64_t idx, HistCfg& hc, std::vector<S
   Rng r(fnv1a(&idx, sizeof idx, seed * 0x9E3779B97F4A7C15ull + 0xC16));
   hc = HistCfg(); S.clear();
   gen_history(r, hc, S);
+  hc.pseed = r.next();
 }
 
 struct ChildResult { std::vector<std::string> ids, whats; bool has(const std::string& id) const { return std::find(ids.begin(), ids.end(), id) != ids.end(); } };
@@ -1697,7 +1954,7 @@ static ChildResult run_in_child(const HistCfg& hc, const std::vector<Step>& S) {
     g_viol_fd = pfd[1];
     Outcome O; run_history(hc, S, O, false);
     g_fresh_cache.clear(); g_fresh_state.clear();
-    if (__lsan_do_recoverable_leak_check()) { std::string msg = "leak\tLeakSanitizer: memory of the history is unreachable after all objects were destroyed\n"; ssize_t wr = write(pfd[1], msg.data(), msg.size()); (void)wr; }
+    if (leak_check_now()) { std::string msg = "leak\tLeakSanitizer: memory of the history is unreachable after all objects were destroyed\n"; ssize_t wr = write(pfd[1], msg.data(), msg.size()); (void)wr; }
     close(pfd[1]);
     _exit(0);
   }
@@ -1761,6 +2018,7 @@ static void shrink(HistCfg& hc, std::vector<Step>& S, const std::string& target,
         if (s.op != OP_GEN && target.rfind("state:", 0) == 0) { Step n = S[i]; n.prog = 0; attempt(n); }   // state alarms do not depend on the probe program
       }
       if (s.op == OP_INIT) { Step n = S[i]; n.a = 0; attempt(n); }
+      if (s.op == OP_NEWHOLDER) { Step n = S[i]; n.op = OP_RESET_HARD; attempt(n); }
       if (s.op == OP_RESET_HARD) { Step n = S[i]; n.op = OP_RESET_SOFT; attempt(n); }
     }
   }
@@ -1825,7 +2083,7 @@ int main(int argc, char** argv) {
     if (((idx - first) & 31) == 31 || idx + 1 == first + nh) {
       leak_checks++;
       g_fresh_cache.clear(); g_fresh_state.clear();
-      if (__lsan_do_recoverable_leak_check()) {
+      if (leak_check_now()) {
         if (!viol.empty()) viol += ",";
         viol += fmtv("{\"idx\":%llu,\"cls\":\"leak\",\"id\":\"leak\",\"key\":\"leak\",\"what\":\"LeakSanitizer report within histories %llu..%llu\",\"history\":\"\",\"range\":[%llu,%llu]}",
                      (ull)idx, (ull)(idx & ~31ull), (ull)idx, (ull)(idx - ((idx - first) & 31)), (ull)idx);
@@ -1855,6 +2113,25 @@ int main(int argc, char** argv) {
               (ull)ST.static_hist, (ull)ST.noise_hist, (ull)ST.probes_static, (ull)ST.probes_after_noise, (ull)ST.probes_with_logger, (ull)ST.probes_with_eh, (ull)ST.probes_with_diag,
               (ull)ST.cfg_log[1], (ull)ST.cfg_log[2], (ull)ST.cfg_loglvl[0], (ull)ST.cfg_loglvl[1], (ull)ST.cfg_eh[1], (ull)ST.cfg_eh[2], (ull)ST.cfg_diag[0], (ull)ST.cfg_diag[1], (ull)ST.cfg_diag[2],
               (ull)ST.cfg_diag[3], (ull)ST.log_calls, (ull)ST.eh_calls);
+  {
+    auto hist = [&](const char* name, const uint64_t* h) { std::string o = fmtv(",\"%s\":{", name); bool f1 = true; for (int i = 0; i < 64; i++) if (h[i]) { o += fmtv("%s\"%d\":%llu", f1 ? "" : ",", i, (ull)h[i]); f1 = false; } return o + "}"; };
+    out += hist("res_recycled", ST.res_recycled) + hist("res_fresh", ST.res_fresh) + hist("res_twin", ST.res_twin);
+    out += fmtv(",\"addr\":{\"pairs_different_residue\":%llu,\"pairs_same_residue\":%llu,\"wide_align_pairs\":%llu,\"wide_align_pairs_different_residue\":%llu,\"twins_different_residue\":%llu,"
+                "\"twins_same_residue\":%llu,\"wide_align_twins\":%llu,\"wide_align_twins_different_residue\":%llu,\"steering_retries\":%llu,\"heap_perturbations\":%llu,\"perturbation_blocks\":%llu,"
+                "\"perturbation_blocks_kept\":%llu,\"align_offset_model_mismatches\":%llu}",
+                (ull)ST.pairs_diff, (ull)ST.pairs_same, (ull)ST.pairs_wide, (ull)ST.pairs_wide_diff, (ull)ST.twin_diff, (ull)ST.twin_same, (ull)ST.twin_wide, (ull)ST.twin_wide_diff, (ull)g_steer_retries,
+                (ull)g_perturb_calls, (ull)g_perturb_blocks, (ull)g_perturb_kept, (ull)g_align_model_mismatch);
+    static const char* kFam[2] = { "x86", "a64" };
+    std::string al = ",\"aligns\":{", pl = ",\"pools\":{", nc = ",\"new_const\":{"; bool f1 = true, f2 = true, f3 = true;
+    for (int f = 0; f < 2; f++) for (int m = 0; m < 3; m++) for (int l = 0; l < 7; l++) if (g_align_total[f][m][l]) {
+      al += fmtv("%s\"%s/%s/%u\":[%llu,%llu]", f1 ? "" : ",", kFam[f], kAlignModeNames[m], 1u << l, (ull)g_align_unaligned[f][m][l], (ull)g_align_total[f][m][l]); f1 = false; }
+    for (int f = 0; f < 2; f++) for (int k = 0; k < 3; k++) for (int l = 0; l < 7; l++) if (g_pool_embeds[f][k][l]) {
+      pl += fmtv("%s\"%s/%s/%u\":[%llu,%llu]", f2 ? "" : ",", kFam[f], kKindNames[k], 1u << l, (ull)g_pool_unaligned[f][k][l], (ull)g_pool_embeds[f][k][l]); f2 = false; }
+    for (int f = 0; f < 2; f++) for (int sc = 0; sc < 2; sc++) for (int l = 0; l < 7; l++) if (g_new_const[f][sc][l]) {
+      nc += fmtv("%s\"%s/%s/%u\":%llu", f3 ? "" : ",", kFam[f], sc ? "global" : "local", 1u << l, (ull)g_new_const[f][sc][l]); f3 = false; }
+    out += al + "}" + pl + "}" + nc + "}";
+    out += fmtv(",\"allocator\":\"%s\"", kAsanBuild ? "asan" : "glibc");
+  }
   out += ",\"static_sizes\":{";
   for (int i = 0; i < 10; i++) out += fmtv("%s\"%u\":%llu", i ? "," : "", kStaticSizes[i], (ull)ST.static_sizes[i]);
   out += "},\"samples\":[";
